@@ -13,11 +13,35 @@ package badger
 //@ pure nodeKey(id store.NodeID) string = kvkey("vip:node:", string(id))
 //@ pure nonceKey(id string) string = kvkey("vip:nonce:", id)
 
-// nonce[k]: the stored high-water mark; identities without an entry have accepted nothing yet
+//@ pure accountKey(id store.NodeID) string = kvkey("vip:account:", string(id))
+//@ pure balanceKey(a store.Account) string = kvkey("vip:balance:", string(a))
+//@ pure trialKey(id store.NodeID) string = kvkey("vip:trial:", string(id))
+//@ pure peersKey(id store.NodeID) string = kvkey("vip:peers:", string(id))
+
+// nonce[k]: the stored high-water mark; identities without an entry have accepted nothing yet.
+// A balance that was never written is the empty balance.
 //@ abstraction *badgerStore
 //@ absdef nonce[k]    = ite(kvhas(nonceKey(k)), kvget("int64", nonceKey(k)), 0 - 9223372036854775808)
 //@ absdef reg[k]      = kvlive(nodeKey(k))
 //@ absdef node[k]     = kvget("store.Node", nodeKey(k))
+//@ absdef linked[k]   = kvlive(accountKey(k))
+//@ absdef acct[k]     = kvget("store.Account", accountKey(k))
+//@ absdef acredit[k]  = ite(kvlive(balanceKey(k)), bigval(kvget("store.Balance", balanceKey(k)).Credit), 0)
+//@ absdef adeposit[k] = ite(kvlive(balanceKey(k)), bigval(kvget("store.Balance", balanceKey(k)).Deposit), 0)
+//@ absdef tcredit[k]  = ite(kvlive(trialKey(k)), bigval(kvget("store.Balance", trialKey(k)).Credit), 0)
+//@ absdef tdeposit[k] = ite(kvlive(trialKey(k)), bigval(kvget("store.Balance", trialKey(k)).Deposit), 0)
+//@ absdef total       = kvsum()
+//@ absdef tracked[k][j] = kvlive(peersKey(k)) && kvmhas("store.NodeID", "time.Time", peersKey(k), j)
+//@ absdef peerts[k][j]  = kvmval("store.NodeID", "time.Time", peersKey(k), j)
+
+// dbInv: the representation invariant of the database. Only nonce entries carry a TTL; a trial balance or a wallet link
+// exists only for a registered node (nodes are never deleted); stored balances carry the key they are stored under.
+//@ pure dbInv(s *badgerStore) bool = dbInvK()
+//@ pure dbInvK() bool =
+//@      (forall n store.NodeID :: (kvhas(nodeKey(n)) ==> kvexp(nodeKey(n)) == 0) && (kvhas(accountKey(n)) ==> kvexp(accountKey(n)) == 0 && kvhas(nodeKey(n)))
+//@                             && (kvhas(trialKey(n)) ==> kvexp(trialKey(n)) == 0 && kvhas(nodeKey(n))) && (kvhas(peersKey(n)) ==> kvexp(peersKey(n)) == 0 && kvhas(nodeKey(n))))
+//@   && (forall a store.Account :: kvhas(balanceKey(a)) ==> kvexp(balanceKey(a)) == 0)
+//@   && (forall n store.NodeID :: kvhas(nodeKey(n)) ==> kvget("store.Node", nodeKey(n)).ID == n)
 
 // nonceInv: an accepted nonce is remembered for as long as the freshness window could still admit it
 // (an entry only expires once its nonce is older than the window)
@@ -26,8 +50,116 @@ package badger
 
 //@ func (*badgerStore).CheckAndSaveNonce
 //@ property C05 C12 C13
+//@ requires dbInv(s)
+//@ ensures [db-inv] {C12 C13} dbInv(s)
 //@ implements store.NonceStore.CheckAndSaveNonce
 //@ requires s.nonceExpire == store.ExpireNonce && nonceInv(s)
 //@ ensures [inv] {C05} nonceInv(s)
 //@ ensures [complete] {C05} old(s.nonce[ID]) < nonce && nonce > clock() - store.ExpireNonce ==> err == nil || !typeis(err, *errors.errorString)
 //@ ensures [one-transaction] {C13} txncount() <= 1
+
+// ---- nodes ---------------------------------------------------------------------------------
+//@ func (*badgerStore).GetNode
+//@ property C12 C13
+//@ requires dbInv(s)
+//@ ensures [db-inv] {C12 C13} dbInv(s)
+//@ implements store.PoolStore.GetNode
+//@ ensures [read-only] {C13} txncount() <= 1
+
+//@ func (*badgerStore).SetNode
+//@ property C12 C13
+//@ requires dbInv(s)
+//@ ensures [db-inv] {C12 C13} dbInv(s)
+//@ implements store.PoolStore.SetNode
+//@ ensures [one-transaction] {C13} txncount() <= 1
+
+// ---- balances ------------------------------------------------------------------------------
+//@ func (*badgerStore).GetNodeBalance
+//@ property C12 C13
+//@ requires dbInv(s)
+//@ ensures [db-inv] {C12 C13} dbInv(s)
+//@ implements store.BalanceStore.GetNodeBalance
+//@ ensures [read-only] {C13} txncount() <= 1
+
+//@ func (*badgerStore).AddNodeBalance
+//@ property C01 C12 C13
+//@ requires dbInv(s)
+//@ ensures [db-inv] {C12 C13} dbInv(s)
+//@ implements store.BalanceStore.AddNodeBalance
+//@ ensures [one-transaction] {C13} txncount() <= 1
+
+//@ func (*badgerStore).GetAccountBalance
+//@ property C12 C13
+//@ requires dbInv(s)
+//@ ensures [db-inv] {C12 C13} dbInv(s)
+//@ implements store.BalanceStore.GetAccountBalance
+//@ ensures [read-only] {C13} txncount() <= 1
+
+//@ func (*badgerStore).AddAccountBalance
+//@ property C01 C12 C13
+//@ requires dbInv(s)
+//@ ensures [db-inv] {C12 C13} dbInv(s)
+//@ implements store.BalanceStore.AddAccountBalance
+//@ ensures [one-transaction] {C13} txncount() <= 1
+
+//@ func (*badgerStore).AddAccountNode
+//@ property C01 C12 C13
+//@ requires dbInv(s)
+//@ ensures [db-inv] {C12 C13} dbInv(s)
+//@ implements store.AccountStore.AddAccountNode
+//@ ensures [one-transaction] {C13} txncount() <= 1
+
+//@ func (*badgerStore).IsAccountNode
+//@ property C12 C13
+//@ requires dbInv(s)
+//@ ensures [db-inv] {C12 C13} dbInv(s)
+//@ implements store.AccountStore.IsAccountNode
+//@ ensures [read-only] {C13} txncount() <= 1
+
+// ---- keep-alive bookkeeping (C11) ----------------------------------------------------------
+// trackedIn(id, k): k is in the peer set stored for id
+//@ pure trackedIn(id store.NodeID, k store.NodeID) bool = kvmhas("store.NodeID", "time.Time", peersKey(id), k)
+
+//@ func (*badgerStore).NodePeers
+//@ property C11 C12 C13
+//@ requires dbInv(s)
+//@ ensures [db-inv] {C12 C13} dbInv(s)
+//@ implements store.PoolStore.NodePeers
+//@ ensures [read-only] {C13} txncount() <= 1
+
+// the transaction body: every stored peer that is still a registered node is collected, once
+//@ func (*badgerStore).NodePeers$1
+//@ loop 0 invariant [map]      nodePeers != nil && (forall k store.NodeID :: has(nodePeers, k) == trackedIn(nodeID, k)) && kvlive(peersKey(nodeID)) && dbInvK()
+//@ loop 0 invariant [members]  forall p int :: off(r) <= p && p < off(r) + len(r) ==>
+//@        visited[elems(r)[p].ID] && trackedIn(nodeID, elems(r)[p].ID) && kvlive(nodeKey(elems(r)[p].ID)) && elems(r)[p] == kvget("store.Node", nodeKey(elems(r)[p].ID))
+//@ loop 0 invariant [complete] forall k store.NodeID :: visited[k] && kvlive(nodeKey(k)) ==> store.hasNode(r, k)
+//@ loop 0 invariant [distinct] store.distinctIDs(r)
+
+// UpdateNodePeers: one transaction; everything below is phrased over the database state inside that transaction, in which
+// only the reporting node's own record has been rewritten when the loops run.
+// reported(peers, n, k): k is among the first n reported ids and is a registered node
+// wasT / chk: the badger-side reading of store.wasTracked / store.checkin
+//@ pure trackedBefore(id store.NodeID, k store.NodeID) bool = kvlive(peersKey(id)) && trackedIn(id, k)
+//@ pure reported(peers []string, n int, k store.NodeID) bool = store.listedUpTo(peers, n, k) && kvlive(nodeKey(k))
+//@ pure wasT(id store.NodeID, peers []string, k store.NodeID) bool = trackedBefore(id, k) || reported(peers, len(peers), k)
+//@ pure chk(id store.NodeID, peers []string, k store.NodeID) int = ite(reported(peers, len(peers), k), kvget("store.Node", nodeKey(k)).LastSeen, kvmval("store.NodeID", "time.Time", peersKey(id), k))
+
+//@ func (*badgerStore).UpdateNodePeers
+//@ property C11 C12 C13
+//@ requires dbInv(s)
+//@ ensures [db-inv] {C12 C13} dbInv(s)
+//@ implements store.PoolStore.UpdateNodePeers
+//@ ensures [one-transaction] {C13} txncount() <= 1
+
+//@ func (*badgerStore).UpdateNodePeers$1
+//@ loop 0 invariant [map]   nodePeers != nil && dbInvK() && kvlive(nodeKey(nodeID)) && inactive == nil
+//@ loop 0 invariant [own]   forall k store.NodeID :: has(nodePeers, k) <==> trackedBefore(nodeID, k) || reported(peers, rangeidx, k)
+//@ loop 0 invariant [ownts] forall k store.NodeID :: has(nodePeers, k) ==> nodePeers[k] == ite(reported(peers, rangeidx, k), kvget("store.Node", nodeKey(k)).LastSeen, kvmval("store.NodeID", "time.Time", peersKey(nodeID), k))
+//@ loop 1 invariant [map]    nodePeers != nil && dbInvK() && kvlive(nodeKey(nodeID)) && inactiveDeadline == now - store.ExpireInterval
+//@ loop 1 invariant [seen]   forall k store.NodeID :: visited[k] ==> (has(nodePeers, k) <==> wasT(nodeID, peers, k) && chk(nodeID, peers, k) > inactiveDeadline)
+//@ loop 1 invariant [unseen] forall k store.NodeID :: !visited[k] ==> (has(nodePeers, k) <==> wasT(nodeID, peers, k))
+//@ loop 1 invariant [ts]     forall k store.NodeID :: has(nodePeers, k) ==> nodePeers[k] == chk(nodeID, peers, k)
+//@ loop 1 invariant [report-sound] forall p int :: off(inactive) <= p && p < off(inactive) + len(inactive) ==>
+//@        visited[elems(inactive)[p]] && wasT(nodeID, peers, elems(inactive)[p]) && !(chk(nodeID, peers, elems(inactive)[p]) > inactiveDeadline)
+//@ loop 1 invariant [report-complete] forall k store.NodeID :: visited[k] && wasT(nodeID, peers, k) && !(chk(nodeID, peers, k) > inactiveDeadline) ==> store.inList(inactive, k)
+//@ loop 1 invariant [distinct] forall p int, q int :: off(inactive) <= p && p < q && q < off(inactive) + len(inactive) ==> elems(inactive)[p] != elems(inactive)[q]
